@@ -384,15 +384,40 @@ class UDPL(VSchedCheck):
             "1/2/3/128, accept filters none / first byte odd / reject all; remotes IPv4 / IPv6 (loopback, link-local differing only in zone) / mixed; "
             "batch reading off or on with ReadBatchSize 2/3/8 (arrivals then pile up and are returned several per ReadBatch call by the in-memory "
             "socket, NewBatchConn substituted in the same way as net.ListenUDP); every observation carries 'socket closed?'; non-trivial = at least 2 "
-            "accepted connections and 3 delivered datagrams; distinct = distinct (config, operations)")
+            "accepted connections and 3 delivered datagrams; concurrent tier (1/3 of the shards): 2-5 remotes, some connections queued and some accepted, "
+            "then listener Close (also twice), 0-3 Accept calls, connection Close (twice) and parked Reads run as goroutines stepped one "
+            "synchronisation operation at a time by a seeded schedule of 20-140 decisions with arrivals in between, then everything is closed; "
+            "distinct = distinct (config, operations)")
     trusted = ["tools/vrewrite (here only the call substitution net.ListenUDP -> in-memory socket matters; yield hooks are off)",
                "overlay file harness/overlay/udp/verif_export.go (queue length / buffered count accessors)", "testing/synctest (quiescence after each operation)"]
     assumptions = ["operations are issued one at a time (each completes before the next starts)"]
 
     def shrink(self, line, pred):
+        if split3(line)[0].split()[:1] == ["9"]:
+            return line
         return SeqCheck.shrink(self, line, pred)
 
+    def variants(self):
+        base = ["-test.run", "^TestHarness$"]
+        return [(self.hbin, base), (self.hbin, base), (self.hbin, base + ["-mode", "conc"])]
+
+    def model_entry_for(self, conf):
+        return None if conf.split()[:1] == ["9"] else self.model_entry
+
+    def model_postprocess(self, line, model_obs):
+        # concurrent tier (conf 9 <seed>): the observation is the flag word of the implementation-side oracle and must be 0
+        return "0" if split3(line)[0].split()[:1] == ["9"] else model_obs
+
+    def failing_text(self):
+        return ("sequential tier: the implementation's answer differs from the model's; concurrent tier (configuration 9 <seed>, the real code "
+                "stepped one synchronisation operation at a time): flags 1 socket closed while the listener or an accepted connection was still "
+                "open, 2 socket still open after everything was closed, 4 goroutine left, 8 Accept after Close, 16 connection handed out twice / two "
+                "open connections for one remote, 32 accepted open connection cannot send, 64 pending Read not released by Close, 128 Close "
+                "panicked or second Close failed, 256 datagram of another remote")
+
     def is_nontrivial(self, conf, ops, obs):
+        if conf.split()[:1] == ["9"]:
+            return int(segs(ops)[0].split()[0]) >= 40
         o = segs(obs)
         p = segs(ops)
         acc = sum(1 for a, b in zip(p, o) if a == "2" and b.startswith("0 "))
@@ -421,8 +446,10 @@ class C12(UDPL):
                   "queued + accepted-and-open connections, so the socket is closed exactly when the listener is closed and every accepted connection "
                   "is closed - never earlier; Accept fails after Close; Close is idempotent. Tied to the code by differential histories in which every "
                   "observation carries the socket's closed flag, and every history ends by closing everything in a random order")
-    level_note = ("partial: proved and checked for sequentially issued operations; the concurrent interleavings of Accept/Close (the window repaired by fix "
-                  "02e2aef) are not yet explored by the controlled scheduler; OS-level port reuse is not exercised (in-memory socket)")
+    level_note = ("partial: the theorems are about sequentially issued operations; interleavings of listener Close, Accept, connection Close, Read and "
+                  "arrivals are explored on the real code by the controlled scheduler (one synchronisation operation at a time, seeded schedules, the "
+                  "property checked on the implementation: this reports the window repaired by fix 02e2aef when that fix is reverted) but there is no "
+                  "interleaving theorem for the reference counting; OS-level port reuse is not exercised (in-memory socket)")
 
 
 class C17(VSchedCheck):
